@@ -10,6 +10,7 @@ import (
 	"sort"
 	"strings"
 
+	"verifsim/internal/gen"
 	"verifsim/internal/model"
 	"verifsim/internal/rng"
 )
@@ -152,8 +153,14 @@ func Gen(r *rng.R, c *Config) *File {
 	}
 	// autovars
 	if c.PAuto > 0 {
+		nr := r.Fork("avnames")
+		stock := nr.P(0.3)
+		perm := nr.Perm(len(gen.StockAutoVarNames))
 		for i := 0; i < r.Range(1, 2); i++ {
 			name := fmt.Sprintf("av%d", i)
+			if stock {
+				name = gen.StockAutoVarNames[perm[i]]
+			}
 			if r.Bool() {
 				x.f.AutoVars[name] = AutoVar{VarName: "VAR_RESULT", ArgPos: -1}
 			} else {
